@@ -101,7 +101,7 @@ pub fn parse_entry(buf: &[u8]) -> Option<PEntry> {
         if let Some(raw) = raw {
             if raw.len() >= 8 {
                 let n = u64::from_le_bytes(raw[..8].try_into().unwrap()) as usize;
-                if raw.len() >= 8 + n {
+                if n.checked_add(8).map(|end| raw.len() >= end).unwrap_or(false) {
                     value = Some(raw[8..8 + n].to_vec());
                 }
             }
